@@ -7,4 +7,5 @@ func genAll() {
 	genDKGTable()
 	genSecrets()
 	genMirrors()
+	genRouting()
 }
